@@ -121,12 +121,14 @@ def float_out_buffers(ctx, chk, q=None, rule="R13.9"):
     import ast
     q = q or Q
     fi = ctx.db.function(q)
+    # the quotient may live in a private helper of the same module: every function of the module is scanned
+    fns = [fi] + [f for f in fi.module.functions.values() if f is not fi]
     FLOATS = {"float", "np.float64", "numpy.float64", "np.double", "np.float_", "np.longdouble", "'float64'", "'float'", '"float64"', '"float"', "'f8'", "'d'"}
 
-    def float_buffer(e, depth=0):
+    def float_buffer(e, depth=0, fi=fi):
         if isinstance(e, ast.Name) and depth < 3:
             binds = [n.value for n in ast.walk(fi.node) if isinstance(n, ast.Assign) and len(n.targets) == 1 and isinstance(n.targets[0], ast.Name) and n.targets[0].id == e.id]
-            return bool(binds) and all(float_buffer(b, depth + 1) for b in binds)
+            return bool(binds) and all(float_buffer(b, depth + 1, fi) for b in binds)
         if isinstance(e, ast.Call) and isinstance(e.func, ast.Attribute) and isinstance(e.func.value, ast.Name) and e.func.value.id in ("np", "numpy"):
             dt = next((ast.unparse(k.value) for k in e.keywords if k.arg == "dtype"), None)
             if e.func.attr in ("zeros", "ones", "empty", "full"):
@@ -135,7 +137,7 @@ def float_out_buffers(ctx, chk, q=None, rule="R13.9"):
                 return dt in FLOATS
         return False
     n = 0
-    for c in [x for x in ast.walk(fi.node) if isinstance(x, ast.Call)]:
+    for fj, c in [(fj, x) for fj in fns for x in ast.walk(fj.node) if isinstance(x, ast.Call)]:
         src = ast.unparse(c.func)
         if src not in ("np.divide", "np.true_divide", "numpy.divide", "numpy.true_divide"):
             continue
@@ -143,13 +145,13 @@ def float_out_buffers(ctx, chk, q=None, rule="R13.9"):
         if out is None:
             continue
         n += 1
-        inst = "%s:divide@%s" % (q.split(".")[-1], ast.unparse(out)[:40])
-        if float_buffer(out):
+        inst = "%s:divide@%s" % (fj.name, ast.unparse(out)[:40])
+        if float_buffer(out, 0, fj):
             chk.hold(rule, inst, "the quotient is written into a float buffer", nontrivial=False)
         else:
-            chk.violation(rule, q, inst, "np.divide(..., out=%s): the buffer takes the dtype of its template" % ast.unparse(out)[:80],
+            chk.violation(rule, fj.qualname, inst, "np.divide(..., out=%s): the buffer takes the dtype of its template" % ast.unparse(out)[:80],
                           "a float buffer (dtype=float): integer-valued replicates are inside the quantifier and numpy refuses to cast the float quotient into an integer buffer",
-                          "%s:%d" % (fi.module.relpath, c.lineno))
+                          "%s:%d" % (fj.module.relpath, c.lineno))
     return n
 
 
@@ -191,7 +193,7 @@ def run(ctx, chk, tier):
     f = ctx.fn(Q)
     inputs_untouched(ctx, chk, f)
     if float_out_buffers(ctx, chk) < 1:
-        chk.unknown("R13.9", "no guarded division with an out= buffer found in bootstrap_ci (the acceleration quotient)")
+        chk.unknown("R13.9", "no guarded division with an out= buffer found in the utils module")
     # ---------------- quantile
     outs = ctx.explore(lambda: ctx.ev.call(f, [TH, HAT, AL], {"method": Const("quantile")}), chk)
     rets = returns(outs)
